@@ -11,6 +11,10 @@ EXTENDS Aggregators, Events
 ValidPairs(obs, fcst) ==
   LET idx == SelectSeq([i \in DOMAIN obs |-> i], LAMBDA i : IsFinite(obs[i]) /\ IsFinite(fcst[i]))
   IN  [k \in DOMAIN idx |-> <<obs[idx[k]], fcst[idx[k]]>>]
+\* pairs in which both values are present (not NaN); infinite values never reach a score (Dataset drops them)
+ValidPairsNaN(obs, fcst) ==
+  LET idx == SelectSeq([i \in DOMAIN obs |-> i], LAMBDA i : ~IsNaN(obs[i]) /\ ~IsNaN(fcst[i]))
+  IN  [k \in DOMAIN idx |-> <<obs[idx[k]], fcst[idx[k]]>>]
 O(p) == [k \in DOMAIN p |-> p[k][1]]
 F(p) == [k \in DOMAIN p |-> p[k][2]]
 Err(p) == [k \in DOMAIN p |-> Sub(p[k][1], p[k][2])]          \* o - f
@@ -119,4 +123,86 @@ AggregatorConsistency(p) ==
   /\ Det("mae", p, "count", Zero).v = R(N(p))
   /\ Det("bias", p, "mean", Zero).v = Neg(MeanSeq(Err(p)))
   /\ Det("diff", p, "mean", Zero).v = Det("bias", p, "mean", Zero).v
+
+---------------------------------------------------------------------------
+(* C06: categorical scores from the 2x2 contingency table                   *)
+(*   a = hits, b = false alarms, c = misses, d = correct rejections         *)
+\* the table of a sequence of <<o, f>> pairs: counted over exactly the pairs in which both values are present;
+\* the event is the same bin type and thresholds for observation and forecast
+TablePairs(obs, fcst) == ValidPairsNaN(obs, fcst)
+Table(p, bt, t, u) ==
+  <<Cardinality({k \in DOMAIN p : InEvent(bt, p[k][2], t, u) /\ InEvent(bt, p[k][1], t, u)}),
+    Cardinality({k \in DOMAIN p : InEvent(bt, p[k][2], t, u) /\ ~InEvent(bt, p[k][1], t, u)}),
+    Cardinality({k \in DOMAIN p : ~InEvent(bt, p[k][2], t, u) /\ InEvent(bt, p[k][1], t, u)}),
+    Cardinality({k \in DOMAIN p : ~InEvent(bt, p[k][2], t, u) /\ ~InEvent(bt, p[k][1], t, u)})>>
+SwapT(T) == <<T[1], T[3], T[2], T[4]>>          \* exchange observations and forecasts
+ComplT(T) == <<T[4], T[3], T[2], T[1]>>         \* complement the event
+
+CatMetrics == {"a", "b", "c", "d", "n", "ets", "fcstrate", "dscore", "threat", "pc", "edi", "sedi", "eds", "seds",
+               "biasfreq", "hss", "baserate", "or", "lor", "yulesq", "kss", "hit", "miss", "fa", "far"}
+RatioOrUndef(nm, dn) == IF dn = 0 THEN Undef ELSE Q(Frac(nm, dn))
+LnQ(x) == LogE(Q(x))
+
+Cat(name, T) ==
+  LET a == T[1]  b == T[2]  c == T[3]  d == T[4]  n == T[1] + T[2] + T[3] + T[4]
+      H == Frac(a, a + c)  Fr == Frac(b, b + d)  pb == Frac(a + c, n)  qf == Frac(a + b, n)
+  IN
+  IF n = 0 THEN Undef ELSE
+  CASE name = "a" -> Q(Frac(a, n)) [] name = "b" -> Q(Frac(b, n)) [] name = "c" -> Q(Frac(c, n)) [] name = "d" -> Q(Frac(d, n))
+    [] name = "n" -> Q(R(n))
+    [] name = "baserate" -> Q(pb)
+    [] name = "fcstrate" -> Q(qf)
+    [] name = "pc"       -> Q(Frac(a + d, n))
+    [] name = "hit"      -> RatioOrUndef(a, a + c)
+    [] name = "miss"     -> RatioOrUndef(c, a + c)
+    [] name = "fa"       -> RatioOrUndef(b, b + d)
+    [] name = "far"      -> RatioOrUndef(b, a + b)
+    [] name = "threat"   -> RatioOrUndef(a, a + b + c)
+    [] name = "biasfreq" -> RatioOrUndef(a + b, a + c)
+    [] name = "ets"      -> LET ar == Frac((a + b) * (a + c), n)  den == Sub(R(a + b + c), ar)
+                            IN  IF den = Zero THEN Undef ELSE Q(Div(Sub(R(a), ar), den))
+    [] name = "kss"      -> RatioOrUndef(a * d - b * c, (a + c) * (b + d))
+    [] name = "hss"      -> RatioOrUndef(2 * (a * d - b * c), (a + c) * (c + d) + (a + b) * (b + d))
+    [] name = "or"       -> RatioOrUndef(a * d, b * c)
+    [] name = "lor"      -> IF a * d = 0 \/ b * c = 0 THEN Undef ELSE LnQ(Frac(a * d, b * c))
+    [] name = "yulesq"   -> RatioOrUndef(a * d - b * c, a * d + b * c)
+    [] name = "dscore"   -> IF (a + c) * (b + d) = 0 THEN Undef
+                            ELSE Q(Div(Add(R(a * d), Frac(a * b + c * d, 2)), R((a + c) * (b + d))))
+    [] name = "edi"      -> IF a + c = 0 \/ b + d = 0 \/ a = 0 \/ b = 0 \/ Mul(H, Fr) = One THEN Undef
+                            ELSE DivE(SubE(LnQ(Fr), LnQ(H)), AddE(LnQ(Fr), LnQ(H)))
+    [] name = "sedi"     -> IF a + c = 0 \/ b + d = 0 \/ a = 0 \/ b = 0 \/ c = 0 \/ d = 0 THEN Undef
+                            ELSE DivE(AddE(SubE(SubE(LnQ(Fr), LnQ(H)), LnQ(Sub(One, Fr))), LnQ(Sub(One, H))),
+                                      AddE(AddE(AddE(LnQ(Fr), LnQ(H)), LnQ(Sub(One, Fr))), LnQ(Sub(One, H))))
+    [] name = "eds"      -> IF a + c = 0 \/ a = 0 \/ Mul(pb, H) = One THEN Undef
+                            ELSE DivE(SubE(LnQ(pb), LnQ(H)), AddE(LnQ(pb), LnQ(H)))
+    [] name = "seds"     -> IF a + c = 0 \/ a = 0 \/ Mul(pb, H) = One THEN Undef
+                            ELSE DivE(SubE(LnQ(qf), LnQ(H)), AddE(LnQ(pb), LnQ(H)))
+
+\* perfect values (documentation); a perfect forecast has b = c = 0
+CatPerfect(name) == CASE name \in {"hit", "threat", "ets", "pc", "biasfreq", "kss", "hss", "yulesq", "dscore", "edi", "sedi", "eds", "seds"} -> One
+                      [] name \in {"miss", "fa", "far", "b", "c"} -> Zero
+CatWithPerfect == {"hit", "threat", "ets", "pc", "biasfreq", "kss", "hss", "yulesq", "dscore", "edi", "sedi", "eds", "seds", "miss", "fa", "far", "b", "c"}
+
+\* ---- lemmas ----
+CountsSum(p, bt, t, u) == LET T == Table(p, bt, t, u) IN T[1] + T[2] + T[3] + T[4] = N(p)
+SwapTable(p, bt, t, u) == Table([k \in DOMAIN p |-> <<p[k][2], p[k][1]>>], bt, t, u) = SwapT(Table(p, bt, t, u))
+\* complementing the event exchanges hits and correct rejections (complement of below= is above, of below is above=)
+ComplementTable(p, t) == /\ Table(p, "above", t, t) = ComplT(Table(p, "below=", t, t))
+                         /\ Table(p, "above=", t, t) = ComplT(Table(p, "below", t, t))
+SameE(x, y) == x = y
+SwapInvariant == {"a", "d", "n", "threat", "ets", "pc", "hss", "or", "lor", "yulesq"}
+ComplInvariant == {"n", "pc", "hss", "or", "lor", "yulesq"}
+SwapLemma(T) ==
+  /\ \A m \in SwapInvariant : Cat(m, SwapT(T)) = Cat(m, T)
+  /\ Cat("baserate", SwapT(T)) = Cat("fcstrate", T)
+  /\ (T[1] + T[3] > 0 => Cat("hit", T).v = Sub(One, Cat("far", SwapT(T)).v))
+  /\ (T[1] + T[3] > 0 /\ T[1] + T[2] > 0 => Cat("biasfreq", T).v = Inv(Cat("biasfreq", SwapT(T)).v))
+  /\ Cat("b", SwapT(T)) = Cat("c", T)
+ComplLemma(T) ==
+  /\ \A m \in ComplInvariant : Cat(m, ComplT(T)) = Cat(m, T)
+  /\ (T[1] + T[2] + T[3] + T[4] > 0 => Cat("baserate", ComplT(T)).v = Sub(One, Cat("baserate", T).v))
+  /\ Cat("a", ComplT(T)) = Cat("d", T)
+PerfectTable(T) == (T[2] = 0 /\ T[3] = 0) => \A m \in CatWithPerfect : LET e == Cat(m, T) IN IsUndef(e) \/ (IsQ(e) /\ e.v = CatPerfect(m))
+Bounds01(T) == \A m \in {"a", "b", "c", "d", "baserate", "fcstrate", "pc", "hit", "miss", "fa", "far", "threat"} :
+                  LET e == Cat(m, T) IN IsUndef(e) \/ (Ge(e.v, Zero) /\ Le(e.v, One))
 =============================================================================
